@@ -1,5 +1,5 @@
 chk("C03", "exploration",
-    "Bounded-exhaustive enumeration of every profile with <=2 (quick) / <=3 (thorough) validations over all subsets of severity levels, undefined extra names, empty-level spellings, on the full truth-table graph and a no-target graph, under 15 report configurations; every report is compared with an oracle written from the property statement (conforms <=> no Violation result, per-result severity = listing level, result key presence, profileName, dateCreated presence/value, frame condition on everything else).",
+    "Bounded-exhaustive enumeration of every profile with <=2 (quick) / <=3 (thorough) validations over all subsets of severity levels (plus the reports the built CLI leaves in one output file after every ordered pair of long/short/empty reports), undefined extra names, empty-level spellings, on the full truth-table graph and a no-target graph, under 15 report configurations; every report is compared with an oracle written from the property statement (conforms <=> no Violation result, per-result severity = listing level, result key presence, profileName, dateCreated presence/value, frame condition on everything else).",
     "Trusts yaml.v3/encoding/json used by the harness to render profiles and parse reports; atom minCount:1 is checked separately (C01).",
     "bounded exhaustive enumeration (all level assignments x configurations) against a reference oracle, on the real implementation",
     "DESIGN.md §3 C03")
@@ -11,7 +11,7 @@ chk("C01", "exploration",
     "DESIGN.md §3 C01")
 
 chk("C02", "exploration",
-    "Bounded-exhaustive enumeration of path expressions (every AST with <=3 leaves on all graphs with <=2 edges up to renaming, <=4 leaves on a collision suite; thorough: <=4 leaves everywhere and <=3 edges) with every node as focus node; the set of values and their count observed through `in` and `maxCount` traces are compared with a set-valued reference denotation.",
+    "Bounded-exhaustive enumeration of path expressions (every AST with <=3 leaves on all graphs with <=2 edges up to renaming, <=4 leaves on a collision suite; thorough: <=4 leaves everywhere and <=3 edges) with every node as focus node, the <=2-leaf paths again under 5 other namespace shapes (ending in #, _, :, = or nothing); the set of values and their count observed through `in` and `maxCount` traces are compared with a set-valued reference denotation.",
     "Values restricted to IRIs and plain string literals; whitespace/parenthesis variants of the concrete syntax belong to C16.",
     "bounded exhaustive enumeration of path ASTs x small graphs against a reference denotation, on the real implementation",
     "DESIGN.md §3 C02")
@@ -40,7 +40,7 @@ chk("C17", "exploration",
     "DESIGN.md §3 C17")
 
 chk("C04", "exploration",
-    "Exhaustive enumeration of unreadable data: all byte strings up to length 3/4 over the JSON structural alphabet, every prefix and single-byte deletion of three valid documents, non-JSON formats and encodings, and a menu of JSON-LD keyword misuses at three depths, against 3 compiled profiles through the four library entry points and the built CLI; each input is classified independently (own JSON recogniser cross-checked with encoding/json; json-gold called directly) and every unreadable or rejected input must yield an error and no report.",
+    "Exhaustive enumeration of unreadable data: all byte strings up to length 3/4 over the JSON structural alphabet, every prefix and single-byte deletion of three valid documents, non-JSON formats and encodings, a menu of JSON-LD keyword misuses at three depths, and documents of 129..4097 (16385) nodes with one invalid node at the first / middle / power-of-two / last position, against 3 compiled profiles through the four library entry points and the built CLI; each input is classified independently (own JSON recogniser cross-checked with encoding/json; json-gold called directly) and every unreadable or rejected input must yield an error and no report.",
     "json-gold is the definition of 'JSON-LD rejects'; the CLI is exercised on a subset (all of classes b-d sampled by offset, strings of length <=2).",
     "bounded exhaustive enumeration of malformed inputs x entry points with an independent classifier",
     "DESIGN.md §3 C04")
@@ -52,7 +52,7 @@ chk("C09", "model_checking",
     "DESIGN.md §3 C09")
 
 chk("C18", "model_checking",
-    "Explicit-state search over file-system histories on the freshly built acv binary: breadth-first from 7 initial states of the output path to a fixpoint of the canonical state set, every transition being one real CLI invocation (validate with/without output path for 8 inputs, generate, normalize, compile, invalid invocations); each transition is checked against the library called in-process on the same texts.",
+    "Explicit-state search over file-system histories on the freshly built acv binary: breadth-first from 7 initial states of the output path to a fixpoint of the canonical state set, every transition being one real CLI invocation (validate with/without output path for 11 inputs, generate, normalize, compile, invalid invocations; and, as environment answers, PROFILE or DATA delivered through a named pipe in 2-3 bursts cut at 6 offsets so that the tool meets short reads); each transition is checked against the library called in-process on the same texts.",
     "dateCreated cannot be fixed from the CLI: its value is masked after being checked to be RFC3339 within the invocation window. Runs as root (read-only file is writable).",
     "explicit-state BFS to a fixpoint over output-path states with the real binary as transition function and the library as reference model",
     "DESIGN.md §3 C18")
@@ -70,7 +70,7 @@ chk("C15", "model_checking",
     "DESIGN.md §3 C15")
 
 chk("C10", "model_checking",
-    "Stateless model checking of the real code under a hand-written cooperative scheduler: the repository is rebuilt with every access to a package-level variable hooked (type-aware instrumenter, regenerated from the working tree), six 2-3 thread scenarios are explored over all schedules up to a preemption bound (2 quick / 3 thorough; 1-2 for three threads), and for every execution each thread's result is compared with its serial result, with a vector-clock race verdict and deadlock detection; a free-running -race pass of the same bodies is an auxiliary cross-check for unhooked code.",
+    "Stateless model checking of the real code under a hand-written cooperative scheduler: the repository is rebuilt with every access to a package-level variable hooked (type-aware instrumenter, regenerated from the working tree), ten 2-3 thread scenarios (incl. documents whose @context is a referenced file) are explored; `go` statements and sync.WaitGroup of the repository are hooked too, so goroutines it starts are scheduler threads; over all schedules up to a preemption bound (2 quick / 3 thorough; 1-2 for three threads), and for every execution each thread's result is compared with its serial result, with a vector-clock race verdict and deadlock detection; a free-running -race pass of the same bodies (each four times behind a start barrier) is an auxiliary cross-check for unhooked code.",
     "Scheduling points exist only at hooked accesses of repository package-level variables and shim sync operations; interleavings inside dependencies are not explored (auxiliary -race pass only). The same schedule is replayed twice before a violation is believed.",
     "stateless exploration of thread interleavings with iterative preemption bounding under a controlled scheduler, on the instrumented implementation",
     "DESIGN.md §3 C10")
